@@ -587,8 +587,10 @@ def write_evidence(prop, tier, seed, merged, wall_s, violations, known_hits, nwo
                           "reference results come from the same code on fresh instances: plain parsing bugs that show alone and in company alike are out of scope",
                           "a clean batch is evidence about the sampled schedules, histories and faults, not a proof"],
           "wall_s": round(wall_s, 2), "violations": violations}
-    os.makedirs(os.path.join(VERIF, "evidence"), exist_ok=True)
-    with open(os.path.join(VERIF, "evidence", prop.id + ".json"), "w") as f:
+    # tools/ that run the checks against scratch copies (mutants, seeded changes, refactorings) redirect their evidence
+    evdir = os.environ.get("VERIF_EVIDENCE_DIR") or os.path.join(VERIF, "evidence")
+    os.makedirs(evdir, exist_ok=True)
+    with open(os.path.join(evdir, prop.id + ".json"), "w") as f:
         json.dump(ev, f, indent=1, default=repr)
 
 
